@@ -56,6 +56,59 @@ Proof. reflexivity. Qed.
 Lemma findT_cons : forall n b l, findT n (b :: l) = if height b =? n then Some b else findT n l.
 Proof. reflexivity. Qed.
 
+(* ---------- transactions: membership, executed image of a chain ---------- *)
+Definition tmem (t : N) (ts : list N) : bool := existsb (N.eqb t) ts.
+Definition E (l : list block) (t : N) : bool := existsb (fun b => tmem t (txs b)) l.
+(* no transaction of b is carried by a block of l *)
+Definition disj (b : block) (l : list block) : Prop := forall t, tmem t (txs b) = true -> E l t = false.
+
+Lemma tmem_in : forall t ts, tmem t ts = true <-> In t ts.
+Proof.
+  intros. unfold tmem. rewrite existsb_exists. split.
+  - intros [x [Hi He]]. apply N.eqb_eq in He. now subst.
+  - intro H. exists t. split; auto. apply N.eqb_refl.
+Qed.
+
+Lemma E_cons : forall b l t, E (b :: l) t = tmem t (txs b) || E l t.
+Proof. reflexivity. Qed.
+
+Lemma E_app : forall f a t, E (f ++ a) t = E f t || E a t.
+Proof. intros. unfold E. apply existsb_app. Qed.
+
+Lemma E_suffix_false : forall a l t, suffix a l -> E l t = false -> E a t = false.
+Proof. intros a l t [f ->] H. rewrite E_app in H. now apply orb_false_elim in H. Qed.
+
+Lemma disj_suffix : forall b a l, suffix a l -> disj b l -> disj b a.
+Proof. intros b a l Hs H t Ht. eapply E_suffix_false; eauto. Qed.
+
+Lemma tmem_firstn : forall j ts t, tmem t (firstn j ts) = true -> tmem t ts = true.
+Proof.
+  intros j ts t H. apply tmem_in in H. apply tmem_in. revert H. rewrite <- (firstn_skipn j ts) at 2.
+  intro H. apply in_or_app. now left.
+Qed.
+
+(* UnMarkExecuted: one delete per transaction - only the executed store changes *)
+Lemma unexec_fields : forall ts s,
+  byHash (apply (map WUnexec ts) s) = byHash s /\ byHeight (apply (map WUnexec ts) s) = byHeight s /\
+  vhash (apply (map WUnexec ts) s) = vhash s /\ cur (apply (map WUnexec ts) s) = cur s /\
+  amark (apply (map WUnexec ts) s) = amark s /\ rmark (apply (map WUnexec ts) s) = rmark s /\
+  roots (apply (map WUnexec ts) s) = roots s /\
+  forall t, exec (apply (map WUnexec ts) s) t = if tmem t ts then false else exec s t.
+Proof.
+  induction ts as [|a ts IH]; intro s. { cbn. repeat split; auto. }
+  cbn [map]. change (apply (WUnexec a :: map WUnexec ts) s) with (apply (map WUnexec ts) (apply1 s (WUnexec a))).
+  destruct (IH (apply1 s (WUnexec a))) as [H1 [H2 [H3 [H4 [H5 [H6 [H7 H8]]]]]]].
+  rewrite H1, H2, H3, H4, H5, H6, H7. cbn. repeat split; auto.
+  intro t. rewrite H8. unfold tmem. cbn [existsb apply1 exec]. unfold upd.
+  destruct (existsb (N.eqb t) ts); [now rewrite orb_true_r|]. rewrite orb_false_r. now destruct (t =? a).
+Qed.
+
+Lemma vf_after_le : forall ws vf h, vf_after ws vf h = true -> vf h = true.
+Proof.
+  unfold vf_after. induction ws as [|w ws IH]; intros vf h H; cbn in H. exact H.
+  apply IH in H. destruct w; auto. unfold upd in H. destruct (h =? h0); [discriminate|exact H].
+Qed.
+
 Section Universe.
 (* The block tree: U is the set of valid blocks; ids are injective on it and a child is higher than
    its parent and carries at least its cumulative QN (TotalQN = parent's + own qn >= 0). *)
@@ -68,7 +121,7 @@ Hypothesis U_child : forall p c, U p -> U c -> pre c = hash p -> height p < heig
 Fixpoint chain_ok (l : list block) : Prop :=
   match l with
   | [] => False
-  | b :: t => U b /\ match t with [] => b = gen | p :: _ => pre b = hash p /\ chain_ok t end
+  | b :: t => U b /\ match t with [] => b = gen | p :: _ => pre b = hash p /\ disj b t /\ chain_ok t end
   end.
 
 Record rep (s : st) (l : list block) : Prop := {
@@ -78,7 +131,8 @@ Record rep (s : st) (l : list block) : Prop := {
   r_cur    : cur s = hd_error l;
   r_amark  : amark s = None;
   r_rmark  : rmark s = None;
-  r_roots  : forall x, In x l -> roots s (root x) = true
+  r_roots  : forall x, In x l -> roots s (root x) = true;
+  r_exec   : forall t, exec s t = E l t
 }.
 
 (* The property's invariant: the store is exactly the canonical image of one chain. *)
@@ -88,17 +142,17 @@ Lemma chain_ok_U : forall l x, chain_ok l -> In x l -> U x.
 Proof.
   induction l as [|b t IH]; cbn; intros x H Hin. contradiction.
   destruct H as [Ub H]. destruct Hin as [->|Hin]. exact Ub.
-  destruct t as [|p t']. contradiction. destruct H as [_ H]. now apply IH.
+  destruct t as [|p t']. contradiction. destruct H as [_ [_ H]]. now apply IH.
 Qed.
 
 Lemma chain_ok_tail : forall b p t, chain_ok (b :: p :: t) -> chain_ok (p :: t).
-Proof. intros b p t [_ [_ H]]. exact H. Qed.
+Proof. intros b p t [_ [_ [_ H]]]. exact H. Qed.
 
 Lemma chain_ok_lt : forall t b x, chain_ok (b :: t) -> In x t -> height x < height b.
 Proof.
   induction t as [|p t IH]; intros b x H Hin. contradiction.
   assert (Hp : height p < height b).
-  { destruct H as [Ub [Hpre Hc]]. apply (U_child p b); auto. apply (chain_ok_U (p :: t)); cbn; auto. }
+  { destruct H as [Ub [Hpre [_ Hc]]]. apply (U_child p b); auto. apply (chain_ok_U (p :: t)); cbn; auto. }
   destruct Hin as [->|Hin]. exact Hp.
   specialize (IH p x (chain_ok_tail _ _ _ H) Hin). lia.
 Qed.
@@ -137,7 +191,8 @@ Qed.
 Record top_ok (l : list block) (b : block) : Prop := {
   t_U : U b;
   t_pre : exists p t, l = p :: t /\ pre b = hash p;
-  t_fresh : findH (hash b) l = None
+  t_fresh : findH (hash b) l = None;
+  t_disj : disj b l
 }.
 
 Lemma top_facts : forall l b, chain_ok l -> top_ok l b ->
@@ -145,7 +200,7 @@ Lemma top_facts : forall l b, chain_ok l -> top_ok l b ->
               findT (height b) l = None /\ findH (hash b) l = None /\ chain_ok (b :: l) /\
               (forall x, In x l -> height x < height b).
 Proof.
-  intros l b Hc [Ub [p [t [-> Hpre]]] Hf].
+  intros l b Hc [Ub [p [t [-> Hpre]]] Hf Hd].
   assert (Up : U p) by (apply (chain_ok_U (p :: t)); cbn; auto).
   assert (Hne : hash p <> hash b) by (apply (findH_none_in _ (p :: t)); cbn; auto).
   assert (Hlt : forall x, In x (p :: t) -> height x < height b).
@@ -158,10 +213,10 @@ Qed.
 
 Lemma chain_top_ok : forall b p t, chain_ok (b :: p :: t) -> top_ok (p :: t) b.
 Proof.
-  intros b p t H. pose proof H as [Ub [Hpre Hc]]. constructor; auto.
+  intros b p t H. pose proof H as [Ub [Hpre [Hd Hc]]]. constructor; auto.
   - now exists p, t.
-  - destruct (findH (hash b) (p :: t)) eqn:E; auto.
-    apply findH_some in E. destruct E as [Hi He].
+  - destruct (findH (hash b) (p :: t)) eqn:E0; auto.
+    apply findH_some in E0. destruct E0 as [Hi He].
     assert (b0 = b) by (apply U_inj; auto; eapply chain_ok_U; eauto).
     subst b0. pose proof (chain_ok_lt _ _ _ H Hi). lia.
 Qed.
@@ -179,7 +234,8 @@ Record mid (s : st) (l : list block) (b : block) : Prop := {
   m_vhash  : forall n, n <> height b -> vhash s n = option_map hash (findT n l);
   m_vhashb : vhash s (height b) = None \/ vhash s (height b) = Some (hash b);
   m_cur    : cur s = hd_error l \/ cur s = Some b;
-  m_roots  : forall x, In x l -> roots s (root x) = true
+  m_roots  : forall x, In x l -> roots s (root x) = true;
+  m_exec   : forall t, tmem t (txs b) = false -> exec s t = E l t
 }.
 
 Definition quasi (s : st) (l : list block) : Prop :=
@@ -192,12 +248,16 @@ Ltac upd_solve :=
          end; try congruence; auto.
 
 (* ---------- insert: every crash point ---------- *)
+Ltac exec_solve :=
+  unfold crash; cbn - [findH findT E]; intros; unfold tmem in *;
+  repeat match goal with H : existsb _ _ = false |- _ => rewrite H end; cbn [orb]; auto.
+
 Lemma rep_insert : forall s l b, chain_ok l -> top_ok l b -> rep s l ->
   rep (apply (insert_writes b) s) (b :: l).
 Proof.
-  intros s l b Hc Ht [R1 R2 R3 R4 R5 R6 R7].
+  intros s l b Hc Ht [R1 R2 R3 R4 R5 R6 R7 R8].
   destruct (top_facts l b Hc Ht) as [p [t [-> [Hpre [Hne [Hne2 [HT [HF [Hc' Hlt]]]]]]]]].
-  constructor; cbn - [findH findT].
+  constructor; cbn - [findH findT E].
   - intro h. unfold upd. rewrite findH_cons, N.eqb_sym. destruct (hash b =? h); auto.
   - intro n. unfold upd. rewrite findT_cons, N.eqb_sym. destruct (height b =? n); auto.
   - intro n. unfold upd. rewrite findT_cons, N.eqb_sym. destruct (height b =? n); cbn [option_map]; auto.
@@ -206,66 +266,93 @@ Proof.
   - exact R6.
   - intros x [<-|Hi]; unfold upd. now rewrite N.eqb_refl.
     destruct (root x =? root b); auto.
+  - intro t0. rewrite E_cons, R8. reflexivity.
 Qed.
 
 Lemma ins_crash : forall s l b, chain_ok l -> top_ok l b -> rep s l ->
   forall k, quasi (crash k (insert_writes b) s) l \/ rep (crash k (insert_writes b) s) (b :: l).
 Proof.
   intros s l b Hc Ht R k.
-  destruct (le_lt_dec 7 k) as [Hk|Hk].
+  destruct (le_lt_dec 8 k) as [Hk|Hk].
   { right. rewrite crash_all by (cbn; lia). now apply rep_insert. }
   left. destruct k as [|k]. { left. exact R. }
   right. exists b. split; auto.
   destruct (top_facts l b Hc Ht) as [p [t [-> [Hpre [Hne [Hne2 [HT [HF [Hc' Hlt]]]]]]]]].
-  destruct R as [R1 R2 R3 R4 R5 R6 R7].
+  destruct R as [R1 R2 R3 R4 R5 R6 R7 R8].
   assert (HB : byHash s (hash b) = None) by (rewrite R1; auto).
   assert (HH : byHeight s (height b) = None) by (rewrite R2; auto).
   assert (HV : vhash s (height b) = None) by (rewrite R3, HT; auto).
-  do 6 (destruct k as [|k]; [constructor; try solve [upd_solve] |]); lia.
+  do 7 (destruct k as [|k]; [constructor; try solve [upd_solve]; try solve [exec_solve] |]); lia.
 Qed.
 
 (* ---------- remove of the head: every crash point ---------- *)
+Notation rm_w1 b p := (remove_pfx b ++ [WCur p]).
+
 Lemma remove_writes_head : forall s b p t, chain_ok (b :: p :: t) -> rep s (b :: p :: t) ->
-  remove_writes s b = remove_pfx b ++ [WCur p; WDelRmMark].
+  remove_writes s b = rm_w1 b p ++ map WUnexec (txs b) ++ [WDelRmMark].
 Proof.
   intros s b p t Hc R. pose proof (chain_top_ok _ _ _ Hc) as Ht.
-  destruct (top_facts _ b (chain_ok_tail _ _ _ Hc) Ht) as [p' [t' [E [Hpre [Hne [Hne2 _]]]]]].
-  inversion E; subst p' t'. unfold remove_writes. cbn [remove_pfx apply fold_left apply1 byHash].
+  destruct (top_facts _ b (chain_ok_tail _ _ _ Hc) Ht) as [p' [t' [E0 [Hpre [Hne [Hne2 _]]]]]].
+  inversion E0; subst p' t'. unfold remove_writes. cbn [remove_pfx apply fold_left apply1 byHash].
   unfold upd. destruct (N.eqb_spec (pre b) (hash b)); [congruence|].
   rewrite (r_hash _ _ R), !findH_cons.
   destruct (N.eqb_spec (hash b) (pre b)); [congruence|].
   rewrite Hpre, N.eqb_refl. reflexivity.
 Qed.
 
-Lemma rep_remove : forall s b p t, chain_ok (b :: p :: t) -> rep s (b :: p :: t) ->
-  rep (apply (remove_pfx b ++ [WCur p; WDelRmMark]) s) (p :: t).
+(* the state after the deletes and the head move of a removal (or of a repair) of b over l *)
+Record del (s : st) (l : list block) (b : block) : Prop := {
+  d_mid : mid s l b;
+  d_hash : byHash s (hash b) = None;
+  d_height : byHeight s (height b) = None;
+  d_vhash : vhash s (height b) = None;
+  d_cur : cur s = hd_error l;
+  d_rmark : rmark s = Some b
+}.
+
+Lemma del_unexec : forall s l b ts, del s l b -> (forall t, tmem t ts = true -> tmem t (txs b) = true) ->
+  del (apply (map WUnexec ts) s) l b /\
+  amark (apply (map WUnexec ts) s) = amark s /\
+  forall t, exec (apply (map WUnexec ts) s) t = if tmem t ts then false else exec s t.
 Proof.
-  intros s b p t Hc R. pose proof (chain_top_ok _ _ _ Hc) as Ht.
-  destruct (top_facts _ b (chain_ok_tail _ _ _ Hc) Ht) as [p' [t' [E [Hpre [Hne [Hne2 [HT [HF [_ Hlt]]]]]]]]].
-  inversion E; subst p' t'. destruct R as [R1 R2 R3 R4 R5 R6 R7].
-  constructor; cbn - [findH findT].
-  - intro h. unfold upd. destruct (N.eqb_spec h (hash b)). subst; auto.
-    rewrite R1. rewrite findH_cons. destruct (N.eqb_spec (hash b) h); [congruence|reflexivity].
-  - intro n. unfold upd. destruct (N.eqb_spec n (height b)). subst; auto.
-    rewrite R2. rewrite findT_cons. destruct (N.eqb_spec (height b) n); [congruence|reflexivity].
-  - intro n. unfold upd. destruct (N.eqb_spec n (height b)). subst. now rewrite HT.
-    rewrite R3. rewrite findT_cons. destruct (N.eqb_spec (height b) n); [congruence|reflexivity].
-  - reflexivity.
-  - exact R5.
-  - reflexivity.
-  - intros x Hi. apply R7. now right.
+  intros s l b ts [[M1 M2 M3 M4 M5 M6 M7 M8 M9 M10 M11 M12] D1 D2 D3 D4 D5] Hts.
+  destruct (unexec_fields ts s) as [H1 [H2 [H3 [H4 [H5 [H6 [H7 H8]]]]]]].
+  split; [|split; auto].
+  constructor; [constructor|..]; rewrite ?H1, ?H2, ?H3, ?H4, ?H5, ?H6, ?H7; auto.
+  intros t0 Ht0. rewrite H8. destruct (tmem t0 ts) eqn:Et; auto.
+  apply Hts in Et. congruence.
 Qed.
 
-Lemma rem_crash : forall s b p t, chain_ok (b :: p :: t) -> rep s (b :: p :: t) ->
+(* both marks gone, b's keys gone, b's transactions unmarked: the image of l *)
+Lemma fin_rep : forall s s' l b, del s l b ->
+  findH (hash b) l = None -> findT (height b) l = None -> disj b l ->
+  (forall t, tmem t (txs b) = true -> exec s t = false) ->
+  byHash s' = byHash s -> byHeight s' = byHeight s -> vhash s' = vhash s -> cur s' = cur s ->
+  roots s' = roots s -> exec s' = exec s -> amark s' = None -> rmark s' = None -> rep s' l.
+Proof.
+  intros s s' l b [[M1 M2 M3 M4 M5 M6 M7 M8 M9 M10 M11 M12] D1 D2 D3 D4 D5] HF HT Hd Hx F1 F2 F3 F4 F5 F6 F7 F8.
+  constructor; rewrite ?F1, ?F2, ?F3, ?F4, ?F5, ?F6; auto.
+  - intro h. destruct (N.eq_dec h (hash b)) as [->|ne]. now rewrite D1, HF. now apply M4.
+  - intro n. destruct (N.eq_dec n (height b)) as [->|ne]. now rewrite D2, HT. now apply M6.
+  - intro n. destruct (N.eq_dec n (height b)) as [->|ne]. now rewrite D3, HT. now apply M8.
+  - intro t0. destruct (tmem t0 (txs b)) eqn:Et. rewrite Hx by auto. symmetry. now apply Hd. now apply M12.
+Qed.
+
+Lemma del_mid_amark : forall s l b, del s l b -> amark s = Some b -> mid (apply1 s WDelRmMark) l b.
+Proof.
+  intros s l b [[M1 M2 M3 M4 M5 M6 M7 M8 M9 M10 M11 M12] D1 D2 D3 D4 D5] Ha.
+  constructor; cbn; auto.
+Qed.
+
+Lemma rep_remove : forall s b p t, chain_ok (b :: p :: t) -> rep s (b :: p :: t) ->
+  rep (apply (remove_writes s b) s) (p :: t) /\
   forall k, rep (crash k (remove_writes s b) s) (b :: p :: t) \/ quasi (crash k (remove_writes s b) s) (p :: t).
 Proof.
-  intros s b p t Hc R k. rewrite (remove_writes_head _ _ _ _ Hc R).
-  destruct (le_lt_dec 6 k) as [Hk|Hk].
-  { right. left. rewrite crash_all by (cbn; lia). now apply rep_remove. }
-  destruct k as [|k]. { left. exact R. }
-  right. right. exists b. pose proof (chain_top_ok _ _ _ Hc) as Ht. split; auto.
-  destruct (top_facts _ b (chain_ok_tail _ _ _ Hc) Ht) as [p' [t' [E [Hpre [Hne [Hne2 [HT [HF [_ Hlt]]]]]]]]].
-  inversion E; subst p' t'. destruct R as [R1 R2 R3 R4 R5 R6 R7].
+  intros s b p t Hc R. rewrite (remove_writes_head _ _ _ _ Hc R).
+  pose proof (chain_top_ok _ _ _ Hc) as Ht.
+  destruct (top_facts _ b (chain_ok_tail _ _ _ Hc) Ht) as [p' [t' [E0 [Hpre [Hne [Hne2 [HT [HF [_ Hlt]]]]]]]]].
+  inversion E0; subst p' t'. pose proof (t_disj _ _ Ht) as Hd.
+  pose proof R as [R1 R2 R3 R4 R5 R6 R7 R8].
   assert (HB : byHash s (hash b) = Some b) by (rewrite R1, findH_cons; now rewrite N.eqb_refl).
   assert (HH : byHeight s (height b) = Some b) by (rewrite R2, findT_cons; now rewrite N.eqb_refl).
   assert (HV : vhash s (height b) = Some (hash b)) by (rewrite R3, findT_cons; now rewrite N.eqb_refl).
@@ -276,13 +363,39 @@ Proof.
   assert (R3' : forall n, n <> height b -> vhash s n = option_map hash (findT n (p :: t))).
   { intros n Hn. rewrite R3. rewrite findT_cons. destruct (N.eqb_spec (height b) n); [congruence|reflexivity]. }
   assert (R7' : forall x, In x (p :: t) -> roots s (root x) = true) by (intros; apply R7; now right).
+  assert (R8' : forall t0, tmem t0 (txs b) = false -> exec s t0 = E (p :: t) t0).
+  { intros t0 Ht0. rewrite R8, E_cons, Ht0. reflexivity. }
   cbn in R4.
-  do 5 (destruct k as [|k]; [constructor; try solve [upd_solve] |]); lia.
+  set (s5 := apply (rm_w1 b p) s).
+  assert (D5 : del s5 (p :: t) b).
+  { subst s5. constructor; [constructor|..]; try solve [upd_solve]; try solve [exec_solve]. }
+  assert (A5 : amark s5 = None) by (subst s5; cbn; exact R5).
+  destruct (del_unexec s5 (p :: t) b (txs b) D5 (fun _ H => H)) as [D6 [A6 X6]]. rewrite A5 in A6.
+  assert (Fin : rep (apply [WDelRmMark] (apply (map WUnexec (txs b)) s5)) (p :: t)).
+  { eapply (fin_rep _ _ _ b D6); auto.
+    intros t0 Ht0. rewrite X6, Ht0. reflexivity. }
+  split.
+  { rewrite !apply_app. exact Fin. }
+  intro k. destruct (le_lt_dec k 5) as [Hk|Hk].
+  { rewrite crash_app_l by (cbn; lia).
+    destruct k as [|k]. { left. exact R. }
+    right. right. exists b. split; auto.
+    do 5 (destruct k as [|k]; [constructor; try solve [upd_solve]; try solve [exec_solve] |]); lia. }
+  right. rewrite crash_app_r by (cbn; lia). fold s5. cbn [length remove_pfx app].
+  destruct (le_lt_dec (k - 5) (length (txs b))) as [Hj|Hj].
+  - rewrite crash_app_l by (rewrite map_length; exact Hj). unfold crash. rewrite firstn_map.
+    right. exists b. split; auto.
+    apply (del_unexec s5 (p :: t) b (firstn (k - 5) (txs b)) D5). intros t0. apply tmem_firstn.
+  - left. rewrite crash_all by (rewrite app_length, map_length; cbn; lia). rewrite apply_app. exact Fin.
 Qed.
+
+Lemma rem_crash : forall s b p t, chain_ok (b :: p :: t) -> rep s (b :: p :: t) ->
+  forall k, rep (crash k (remove_writes s b) s) (b :: p :: t) \/ quasi (crash k (remove_writes s b) s) (p :: t).
+Proof. intros. now apply rep_remove. Qed.
 
 (* ---------- restart repair from any half-done state, itself interruptible ---------- *)
 Lemma remove_writes_mid : forall s p t b, mid s (p :: t) b -> pre b = hash p -> pre b <> hash b ->
-  remove_writes s b = remove_pfx b ++ [WCur p; WDelRmMark].
+  remove_writes s b = rm_w1 b p ++ map WUnexec (txs b) ++ [WDelRmMark].
 Proof.
   intros s p t b M Hpre Hne. unfold remove_writes. cbn [remove_pfx apply fold_left apply1 byHash].
   unfold upd. destruct (N.eqb_spec (pre b) (hash b)); [congruence|].
@@ -290,47 +403,62 @@ Proof.
 Qed.
 
 Lemma recover_writes_mid : forall s p t b, chain_ok (p :: t) -> top_ok (p :: t) b -> mid s (p :: t) b ->
-  recover_writes s =
-    match amark s with
-    | Some _ => remove_pfx b ++ [WCur p; WDelRmMark; WDelAddMark]
-    | None => remove_pfx b ++ [WCur p; WDelRmMark; WDelRmMark]
-    end.
+  recover_writes s = rm_w1 b p ++ map WUnexec (txs b) ++
+    [WDelRmMark; match amark s with Some _ => WDelAddMark | None => WDelRmMark end].
 Proof.
   intros s p t b Hc Ht M.
-  destruct (top_facts _ b Hc Ht) as [p' [t' [E [Hpre [Hne [Hne2 _]]]]]]. inversion E; subst p' t'.
+  destruct (top_facts _ b Hc Ht) as [p' [t' [E0 [Hpre [Hne [Hne2 _]]]]]]. inversion E0; subst p' t'.
   unfold recover_writes. destruct (m_amark _ _ _ M) as [Ha|Ha]; rewrite Ha.
   - destruct (m_mark _ _ _ M) as [Hx|Hr]; [congruence|].
-    cbn [apply fold_left app]. rewrite Hr. rewrite (remove_writes_mid _ _ _ _ M Hpre Hne2). reflexivity.
-  - rewrite (remove_writes_mid _ _ _ _ M Hpre Hne2). cbn. reflexivity.
+    cbn [apply fold_left app]. rewrite Hr. rewrite (remove_writes_mid _ _ _ _ M Hpre Hne2).
+    rewrite <- !app_assoc. reflexivity.
+  - rewrite (remove_writes_mid _ _ _ _ M Hpre Hne2).
+    assert (Hr : rmark (apply ((rm_w1 b p ++ map WUnexec (txs b) ++ [WDelRmMark]) ++ [WDelAddMark]) s) = None).
+    { rewrite !apply_app. reflexivity. }
+    rewrite Hr. rewrite app_nil_r, <- !app_assoc. reflexivity.
 Qed.
 
 Lemma recover_mid : forall s l b, chain_ok l -> top_ok l b -> mid s l b ->
-  forall j, quasi (crash j (recover_writes s) s) l /\ ((7 <= j)%nat -> rep (crash j (recover_writes s) s) l).
+  (forall j, quasi (crash j (recover_writes s) s) l) /\ rep (apply (recover_writes s) s) l.
 Proof.
-  intros s l b Hc Ht M j.
+  intros s l b Hc Ht M.
   destruct (top_facts l b Hc Ht) as [p [t [-> [Hpre [Hne [Hne2 [HT [HF [Hc' Hlt]]]]]]]]].
+  pose proof (t_disj _ _ Ht) as Hd.
   rewrite (recover_writes_mid _ _ _ _ Hc Ht M).
   assert (HV : option_map hash (findT (height b) (p :: t)) = None) by now rewrite HT.
-  pose proof M as [M1 M2 M3 M4 M5 M6 M7 M8 M9 M10 M11].
+  pose proof M as [M1 M2 M3 M4 M5 M6 M7 M8 M9 M10 M11 M12].
   assert (Q0 : quasi s (p :: t)) by (right; exists b; auto).
-  destruct M2 as [Ha|Ha]; rewrite Ha.
-  - (* only the remove mark *)
-    destruct M1 as [Hx|Hr]; [congruence|].
-    destruct j as [|j]. { split; [exact Q0|lia]. }
-    do 5 (destruct j as [|j]; [split; [right; exists b; split; [exact Ht|constructor; try solve [upd_solve]]|lia]|]).
-    destruct j as [|j].
-    { assert (R : rep (crash 6 (remove_pfx b ++ [WCur p; WDelRmMark; WDelRmMark]) s) (p :: t))
-        by (constructor; try solve [upd_solve]).
-      split; [left|intro]; exact R. }
-    assert (R : rep (apply (remove_pfx b ++ [WCur p; WDelRmMark; WDelRmMark]) s) (p :: t))
-      by (constructor; try solve [upd_solve]).
-    rewrite crash_all by (cbn; lia). split; [left|intro]; exact R.
-  - (* add mark (and perhaps the remove mark of an interrupted repair) *)
-    destruct j as [|j]. { split; [exact Q0|lia]. }
-    do 6 (destruct j as [|j]; [split; [right; exists b; split; [exact Ht|constructor; try solve [upd_solve]]|lia]|]).
-    assert (R : rep (apply (remove_pfx b ++ [WCur p; WDelRmMark; WDelAddMark]) s) (p :: t))
-      by (constructor; try solve [upd_solve]).
-    rewrite crash_all by (cbn; lia). split; [left|intro]; exact R.
+  set (s5 := apply (rm_w1 b p) s).
+  assert (D5 : del s5 (p :: t) b).
+  { subst s5. constructor; [constructor|..]; try solve [upd_solve]; try solve [exec_solve]. }
+  assert (A5 : amark s5 = amark s) by (subst s5; reflexivity).
+  destruct (del_unexec s5 (p :: t) b (txs b) D5 (fun _ H => H)) as [D6 [A6 X6]]. rewrite A5 in A6.
+  set (s6 := apply (map WUnexec (txs b)) s5) in *.
+  assert (C6 : forall t0, tmem t0 (txs b) = true -> exec s6 t0 = false).
+  { intros t0 Ht0. rewrite X6, Ht0. reflexivity. }
+  set (X := match amark s with Some _ => WDelAddMark | None => WDelRmMark end).
+  assert (Fin : rep (apply [WDelRmMark; X] s6) (p :: t)).
+  { eapply (fin_rep s6 _ _ b D6); auto; subst X; destruct M2 as [Ha|Ha]; rewrite Ha; try reflexivity.
+    cbn. exact A6 || (cbn; rewrite A6; exact Ha). }
+  split.
+  2:{ rewrite !apply_app. exact Fin. }
+  intro j. destruct (le_lt_dec j 5) as [Hk|Hk].
+  { rewrite crash_app_l by (cbn; lia).
+    destruct j as [|j]. { exact Q0. }
+    right. exists b. split; [exact Ht|].
+    do 5 (destruct j as [|j]; [constructor; try solve [upd_solve]; try solve [exec_solve] |]); lia. }
+  rewrite crash_app_r by (cbn; lia). fold s5. cbn [length remove_pfx app].
+  destruct (le_lt_dec (j - 5) (length (txs b))) as [Hj|Hj].
+  { rewrite crash_app_l by (rewrite map_length; exact Hj). unfold crash. rewrite firstn_map.
+    right. exists b. split; auto.
+    apply (del_unexec s5 (p :: t) b (firstn (j - 5) (txs b)) D5). intros t0. apply tmem_firstn. }
+  rewrite crash_app_r by (rewrite map_length; lia). fold s6. rewrite map_length.
+  remember (j - 5 - length (txs b))%nat as i. destruct i as [|i]; [lia|].
+  destruct i as [|i].
+  { unfold crash. cbn [firstn apply fold_left]. destruct M2 as [Ha|Ha].
+    - left. eapply (fin_rep s6 _ _ b D6); auto. cbn. now rewrite A6.
+    - right. exists b. split; auto. apply del_mid_amark; auto. now rewrite A6. }
+  left. rewrite crash_all by (cbn; lia). exact Fin.
 Qed.
 
 Lemma recover_writes_rep : forall s l, rep s l -> recover_writes s = [].
@@ -348,10 +476,7 @@ Proof.
   - rewrite (recover_writes_rep _ _ R). unfold recover. rewrite (recover_writes_rep _ _ R). split.
     + intro j. rewrite firstn_nil_crash. now left.
     + exact R.
-  - split.
-    + intro j. apply (recover_mid s l b Hc Ht M j).
-    + unfold recover. rewrite <- (crash_all (7 + length (recover_writes s))) by lia.
-      apply (recover_mid s l b Hc Ht M). lia.
+  - apply (recover_mid s l b Hc Ht M).
 Qed.
 
 (* any number of interrupted restarts, then one that completes *)
@@ -404,8 +529,8 @@ Proof.
       destruct t as [|p t'].
       { destruct Hia as [<-|[]]. lia. }
       assert (Hia' : In a (p :: t')). { destruct Hia as [<-|]; auto. lia. }
-      rewrite (remove_writes_head _ _ _ _ Hc R).
-      pose proof (rep_remove _ _ _ _ Hc R) as R'.
+      destruct (rep_remove _ _ _ _ Hc R) as [R' RC0].
+      set (rw := remove_writes s b) in *.
       pose proof (chain_ok_tail _ _ _ Hc) as Hc'.
       assert (Hb' : forall y, In y (p :: t') -> height y <= ht - 1).
       { intros y Hy. pose proof (chain_ok_lt _ _ _ Hc Hy). lia. }
@@ -414,14 +539,13 @@ Proof.
       { cbn [drop_above]. destruct (N.ltb_spec anc_h (height b)); auto. lia. }
       rewrite Hd. split.
       * rewrite apply_app. exact IH1.
-      * intro k. destruct (le_lt_dec k (length (remove_pfx b ++ [WCur p; WDelRmMark]))) as [Hk|Hk].
+      * intro k. destruct (le_lt_dec k (length rw)) as [Hk|Hk].
         -- rewrite crash_app_l by auto.
-           pose proof (rem_crash _ _ _ _ Hc R k) as RC. rewrite (remove_writes_head _ _ _ _ Hc R) in RC.
-           destruct RC as [RC|RC].
+           destruct (RC0 k) as [RC|RC].
            ++ exists (b :: p :: t'). split; [exact Hc|split; [now left|split; [apply suffix_refl|]]].
               rewrite <- Hd. apply drop_above_suffix.
            ++ exists (p :: t'). split; [exact Hc'|split; [exact RC|split; [apply suffix_cons, suffix_refl|apply drop_above_suffix]]].
-        -- rewrite crash_app_r by lia. destruct (IH2 (k - length (remove_pfx b ++ [WCur p; WDelRmMark]))%nat)
+        -- rewrite crash_app_r by lia. destruct (IH2 (k - length rw)%nat)
              as [l' [C1 [C2 [C3 C4]]]].
            exists l'. split; [exact C1|split; [exact C2|split; [now apply suffix_cons|exact C4]]].
     + assert (Hb' : forall y, In y l -> height y <= ht - 1).
@@ -440,6 +564,68 @@ Proof.
     destruct t as [|p t']; [contradiction|]. apply IH; auto. now apply chain_ok_tail in Hc.
 Qed.
 
+(* ---------- chains are unique; the verified-block cache; executed store vs disjointness ---------- *)
+Lemma chain_gen_in : forall l, chain_ok l -> In gen l.
+Proof.
+  induction l as [|b t IH]; cbn; intro H. contradiction.
+  destruct H as [Ub H]. destruct t as [|p t']. { left. exact H. }
+  destruct H as [_ [_ H]]. right. now apply IH.
+Qed.
+
+Lemma chain_uniq : forall l1 l2 a, chain_ok (a :: l1) -> chain_ok (a :: l2) -> l1 = l2.
+Proof.
+  induction l1 as [|p1 t1 IH]; intros l2 a H1 H2.
+  - destruct l2 as [|p2 t2]; auto. exfalso.
+    destruct H1 as [_ H1]. subst a.
+    pose proof (chain_gen_in _ (chain_ok_tail _ _ _ H2)) as Hi.
+    pose proof (chain_ok_lt _ _ _ H2 Hi). lia.
+  - destruct l2 as [|p2 t2].
+    + exfalso. destruct H2 as [_ H2]. subst a.
+      pose proof (chain_gen_in _ (chain_ok_tail _ _ _ H1)) as Hi.
+      pose proof (chain_ok_lt _ _ _ H1 Hi). lia.
+    + assert (p1 = p2).
+      { apply U_inj.
+        - apply (chain_ok_U _ _ H1). right. now left.
+        - apply (chain_ok_U _ _ H2). right. now left.
+        - destruct H1 as [_ [e1 _]], H2 as [_ [e2 _]]. congruence. }
+      subst p2. f_equal. apply (IH t2 p1); eapply chain_ok_tail; eauto.
+Qed.
+
+(* every cached block is tx-disjoint from the (unique) chain below its parent *)
+Definition vf_ok (vf : N -> bool) : Prop :=
+  forall b a rest, U b -> vf (hash b) = true -> chain_ok (a :: rest) -> pre b = hash a -> disj b (a :: rest).
+
+Lemma vf_ok_after : forall ws vf, vf_ok vf -> vf_ok (vf_after ws vf).
+Proof. intros ws vf H b a rest Ub Hv. apply H; auto. eapply vf_after_le; eauto. Qed.
+
+Lemma vf_ok_upd : forall vf b, vf_ok vf -> U b ->
+  (forall a rest, chain_ok (a :: rest) -> pre b = hash a -> disj b (a :: rest)) -> vf_ok (upd vf (hash b) true).
+Proof.
+  intros vf b H Ub Hb b' a rest Ub' Hv Hc Hp. unfold upd in Hv.
+  destruct (N.eqb_spec (hash b') (hash b)) as [e|ne].
+  - assert (b' = b) by (apply U_inj; auto). subst. now apply Hb.
+  - now apply (H b' a rest).
+Qed.
+
+Lemma vf_ok_upd_hit : forall vf b, vf (hash b) = true -> vf_ok vf -> vf_ok (upd vf (hash b) true).
+Proof.
+  intros vf b Hh H b' a rest Ub' Hv. apply H; auto. unfold upd in Hv.
+  destruct (N.eqb_spec (hash b') (hash b)) as [e|ne]; auto. now rewrite e.
+Qed.
+
+Lemma exec_disj : forall s l b, rep s l -> existsb (exec s) (txs b) = false -> disj b l.
+Proof.
+  intros s l b R H t Ht. apply tmem_in in Ht. rewrite <- (r_exec _ _ R). destruct (exec s t) eqn:e; auto.
+  assert (existsb (exec s) (txs b) = true) by (apply existsb_exists; eauto). congruence.
+Qed.
+
+Lemma disj_exec : forall s l b, rep s l -> disj b l -> existsb (exec s) (txs b) = false.
+Proof.
+  intros s l b R H. destruct (existsb (exec s) (txs b)) eqn:e; auto.
+  apply existsb_exists in e. destruct e as [t [Hi He]]. rewrite (r_exec _ _ R), H in He. discriminate.
+  now apply tmem_in.
+Qed.
+
 (* ---------- addBlockOnChain ---------- *)
 Definition futs_ok (fut : N -> option block) : Prop := forall h c, fut h = Some c -> U c.
 Definition qhd (l : list block) : N := match l with b :: _ => qn b | [] => 0 end.
@@ -447,108 +633,133 @@ Definition qhd (l : list block) : N := match l with b :: _ => qn b | [] => 0 end
 Lemma is_some_false : forall A (o : option A), is_some o = false -> o = None.
 Proof. now destruct o. Qed.
 
-Definition add_post (s : st) (l : list block) (b : block) (ws : list write) (r : result) (ex : bool) : Prop :=
+Definition add_post (s : st) (l : list block) (b : block) (ws : list write) (r : result) (ex : bool)
+  (vf' : N -> bool) : Prop :=
   (exists l', chain_ok l' /\ rep (apply ws s) l' /\ (ex = false -> qhd l <= qhd l') /\
               (ex = false -> r = RSucc -> qn b <= qhd l')) /\
-  (forall top t, l = top :: t -> pre b = hash top -> findH (hash b) l = None -> ex = false -> r = RSucc) /\
-  (forall k, exists l'', chain_ok l'' /\ quasi (crash k ws s) l'').
+  (forall top t, l = top :: t -> pre b = hash top -> findH (hash b) l = None -> disj b l -> ex = false -> r = RSucc) /\
+  (forall k, exists l'', chain_ok l'' /\ quasi (crash k ws s) l'') /\
+  vf_ok vf'.
 
-Lemma add_stay : forall s l b r, chain_ok l -> rep s l -> r <> RSucc ->
-  (forall top t, l = top :: t -> pre b = hash top -> findH (hash b) l = None -> False) ->
-  add_post s l b [] r false.
+Lemma add_stay : forall s l b r vf, chain_ok l -> rep s l -> r <> RSucc -> vf_ok vf ->
+  (forall top t, l = top :: t -> pre b = hash top -> findH (hash b) l = None -> disj b l -> False) ->
+  add_post s l b [] r false vf.
 Proof.
-  intros s l b r Hc R Hr Hx. split; [|split].
+  intros s l b r vf Hc R Hr Hv Hx. split; [|split; [|split]]; auto.
   - exists l. cbn. split; auto. split; auto. split. lia. congruence.
-  - intros top t E1 E2 E3 _. exfalso. eauto.
+  - intros top t E1 E2 E3 E4 _. exfalso. eauto.
   - intro k. exists l. rewrite firstn_nil_crash. split; auto. now left.
 Qed.
 
-Lemma add_ok : forall fuel fut s l b, futs_ok fut -> chain_ok l -> rep s l -> U b ->
-  forall ws r ex, add_writes fuel fut s b = (ws, r, ex) -> add_post s l b ws r ex.
+Lemma add_ok : forall fuel fut vf s l b, futs_ok fut -> vf_ok vf -> chain_ok l -> rep s l -> U b ->
+  forall ws r ex vf', add_writes fuel fut vf s b = (ws, r, ex, vf') -> add_post s l b ws r ex vf'.
 Proof.
-  induction fuel as [|f IH]; intros fut s l b Hfut Hc R Ub ws r ex E.
-  { cbn in E. inversion E; subst. split; [|split].
+  induction fuel as [|f IH]; intros fut vf s l b Hfut Hvf Hc R Ub ws r ex vf' E0.
+  { cbn in E0. inversion E0; subst. split; [|split; [|split]]; auto.
     - exists l. cbn. split; auto. split; auto. split; [lia|discriminate].
     - discriminate.
     - intro k. exists l. rewrite firstn_nil_crash. split; auto. now left. }
-  cbn [add_writes] in E. rewrite (r_cur _ _ R) in E.
-  destruct l as [|top t]; [contradiction|]. cbn [hd_error] in E.
-  rewrite !(r_hash _ _ R) in E.
+  cbn [add_writes] in E0. rewrite (r_cur _ _ R) in E0.
+  destruct l as [|top t]; [contradiction|]. cbn [hd_error] in E0.
+  rewrite !(r_hash _ _ R) in E0.
   destruct ((hash b =? hash top) || is_some (findH (hash b) (top :: t))) eqn:Eex.
-  { inversion E; subst. apply add_stay; auto. discriminate.
-    intros top' t' E1 E2 E3. inversion E1; subst top' t'. rewrite E3 in Eex. cbn in Eex.
+  { inversion E0; subst. apply add_stay; auto. discriminate.
+    intros top' t' E1 E2 E3 _. inversion E1; subst top' t'. rewrite E3 in Eex. cbn in Eex.
     rewrite orb_false_r in Eex. apply N.eqb_eq in Eex. rewrite findH_cons, Eex, N.eqb_refl in E3. discriminate. }
   apply orb_false_elim in Eex. destruct Eex as [Ene Efr]. apply is_some_false in Efr. apply N.eqb_neq in Ene.
   destruct (findH (pre b) (top :: t)) as [anc|] eqn:Eanc.
-  2:{ inversion E; subst. apply add_stay; auto. discriminate.
-      intros top' t' E1 E2 E3. inversion E1; subst top' t'.
+  2:{ inversion E0; subst. apply add_stay; auto. destruct (_ && _); discriminate.
+      intros top' t' E1 E2 E3 _. inversion E1; subst top' t'.
       rewrite E2, findH_cons, N.eqb_refl in Eanc. discriminate. }
-  apply findH_some in Eanc. destruct Eanc as [Hia Hha].
+  pose proof Eanc as Eanc0. apply findH_some in Eanc. destruct Eanc as [Hia Hha].
   assert (Utop : U top) by (eapply chain_ok_U; eauto; now left).
+  destruct (negb (vf (hash b)) && existsb (exec s) (txs b)) eqn:Ever.
+  { inversion E0; subst. apply add_stay; auto. discriminate.
+    intros top' t' E1 E2 E3 Hdj. inversion E1; subst top' t'. apply andb_prop in Ever. destruct Ever as [_ Ex].
+    rewrite (disj_exec _ _ _ R Hdj) in Ex. discriminate. }
+  (* verification passed: b is tx-disjoint from the chain below its parent and may be cached *)
+  destruct (drop_above_at _ _ Hc Hia) as [rest Hd].
+  assert (Hs1 : suffix (anc :: rest) (top :: t)) by (rewrite <- Hd; apply drop_above_suffix).
+  assert (Hc1 : chain_ok (anc :: rest)) by (eapply chain_ok_suffix; eauto; discriminate).
+  assert (Uanc : U anc) by (apply (chain_ok_U _ _ Hc Hia)).
+  assert (Dj : disj b (anc :: rest) /\ vf_ok (upd vf (hash b) true)).
+  { destruct (vf (hash b)) eqn:Ehit.
+    - split. apply (Hvf b anc rest); auto. now apply vf_ok_upd_hit.
+    - cbn in Ever. assert (D0 : disj b (top :: t)) by (eapply exec_disj; eauto).
+      assert (D1 : disj b (anc :: rest)) by (eapply disj_suffix; eauto).
+      split; auto. apply vf_ok_upd; auto. intros a' rest' Hc' Hp'.
+      assert (a' = anc).
+      { apply U_inj; auto. eapply chain_ok_U; eauto. now left. congruence. }
+      subst a'. rewrite (chain_uniq _ _ _ Hc' Hc1). exact D1. }
+  destruct Dj as [Dj Hvf1]. clear Ever.
+  remember (upd vf (hash b) true) as vf1.
   (* the reorg continuation, used by two branches *)
-  assert (Reorg : qn top <= qn b -> pre b <> hash top -> forall ws r ex,
+  assert (Reorg : qn top <= qn b -> pre b <> hash top -> forall ws r ex vf',
     (let ws1 := rfca (N.to_nat (height top - height anc)) s (height anc) (height top) in
-     let '(ws2, r2, ex2) := add_writes f fut (apply ws1 s) b in (ws1 ++ ws2, r2, ex2)) = (ws, r, ex) ->
-    add_post s (top :: t) b ws r ex).
-  { intros Hq Hnp ws0 r0 ex0 E0. cbn zeta in E0.
+     let '(ws2, r2, ex2, vf2) := add_writes f fut (vf_after ws1 vf1) (apply ws1 s) b in (ws1 ++ ws2, r2, ex2, vf2))
+      = (ws, r, ex, vf') ->
+    add_post s (top :: t) b ws r ex vf').
+  { intros Hq Hnp ws0 r0 ex0 vf0 E1. cbn zeta in E1.
     assert (Hb : forall y, In y (top :: t) -> height y <= height top).
     { intros y [<-|Hy]. lia. pose proof (chain_ok_lt _ _ _ Hc Hy). lia. }
     destruct (rfca_ok (N.to_nat (height top - height anc)) s (top :: t) (height anc) (height top) Hc R
                 (ex_intro _ anc (conj Hia eq_refl)) Hb (le_n _)) as [R1 C1].
-    destruct (drop_above_at _ _ Hc Hia) as [rest Hd]. rewrite Hd in R1, C1.
+    rewrite Hd in R1, C1.
     set (ws1 := rfca (N.to_nat (height top - height anc)) s (height anc) (height top)) in *.
-    assert (Hs1 : suffix (anc :: rest) (top :: t)) by (rewrite <- Hd; apply drop_above_suffix).
-    assert (Hc1 : chain_ok (anc :: rest)) by (eapply chain_ok_suffix; eauto; discriminate).
-    destruct (add_writes f fut (apply ws1 s) b) as [[ws2 r2] ex2] eqn:E2. inversion E0; subst ws0 r0 ex0.
-    destruct (IH fut _ _ b Hfut Hc1 R1 Ub _ _ _ E2) as [[l' [P1 [P2 [P3 P4]]]] [P5 P6]].
+    destruct (add_writes f fut (vf_after ws1 vf1) (apply ws1 s) b) as [[[ws2 r2] ex2] vf2] eqn:E2.
+    inversion E1; subst ws0 r0 ex0 vf0.
+    destruct (IH fut _ _ _ b Hfut (vf_ok_after ws1 _ Hvf1) Hc1 R1 Ub _ _ _ _ E2) as [[l' [P1 [P2 [P3 P4]]]] [P5 [P6 P7]]].
     assert (Hfr1 : findH (hash b) (anc :: rest) = None) by (eapply findH_suffix_none; eauto).
-    split; [|split].
+    split; [|split; [|split]]; auto.
     - exists l'. rewrite apply_app. split; auto. split; auto.
       assert (Hx : ex2 = false -> qn b <= qhd l').
       { intro He. apply P4; auto. eapply P5; eauto. }
       split; auto. intro He. cbn [qhd]. specialize (Hx He). lia.
-    - intros top' t' E1 E2' _ _. inversion E1; subst. congruence.
+    - intros top' t' E1' E2' _ _. inversion E1'; subst. congruence.
     - intro k. destruct (le_lt_dec k (length ws1)) as [Hk|Hk].
       + rewrite crash_app_l by auto. destruct (C1 k) as [l'' [Q1 [Q2 _]]]. eauto.
       + rewrite crash_app_r by lia. apply P6. }
   destruct (N.eqb_spec (pre b) (hash top)) as [Hpt|Hpt].
   - (* extend the head *)
+    assert (anc = top).
+    { rewrite Hpt, findH_cons, N.eqb_refl in Eanc0. congruence. }
+    subst anc. cbn [drop_above] in Hd. rewrite N.ltb_irrefl in Hd. inversion Hd; subst rest.
     assert (Ht : top_ok (top :: t) b) by (constructor; auto; now exists top, t).
     pose proof (rep_insert _ _ _ Hc Ht R) as R'.
     destruct (top_facts _ b Hc Ht) as [p' [t' [E' [_ [_ [_ [_ [_ [Hc' _]]]]]]]]].
     assert (Hq : qn top <= qn b) by (apply (U_child top b); auto).
     destruct (fut (hash b)) as [c|] eqn:Ef.
-    + destruct (add_writes f fut (apply (insert_writes b) s) c) as [[ws2 r2] ex2] eqn:E2.
+    + destruct (add_writes f fut vf1 (apply (insert_writes b) s) c) as [[[ws2 r2] ex2] vf2] eqn:E2.
       assert (Ew : ws = insert_writes b ++ ws2) by congruence.
-      assert (Er : r = RSucc) by congruence. assert (Ee : ex = ex2) by congruence. clear E. subst ws r ex.
-      destruct (IH fut _ _ c Hfut Hc' R' (Hfut _ _ Ef) _ _ _ E2) as [[l' [P1 [P2 [P3 P4]]]] [P5 P6]].
-      split; [|split].
+      assert (Er : r = RSucc) by congruence. assert (Ee : ex = ex2) by congruence.
+      assert (Ev : vf' = vf2) by congruence. clear E0. subst ws r ex vf'.
+      destruct (IH fut _ _ _ c Hfut Hvf1 Hc' R' (Hfut _ _ Ef) _ _ _ _ E2) as [[l' [P1 [P2 [P3 P4]]]] [P5 [P6 P7]]].
+      split; [|split; [|split]]; auto.
       * exists l'. rewrite apply_app. split; auto. split; auto. cbn [qhd] in *.
         split; intros; specialize (P3 H); lia.
-      * reflexivity.
       * intro k. destruct (le_lt_dec k (length (insert_writes b))) as [Hk|Hk].
         -- rewrite crash_app_l by auto. destruct (ins_crash _ _ _ Hc Ht R k) as [Q|Q]; eauto.
            exists (b :: top :: t). split; auto. now left.
         -- rewrite crash_app_r by lia. apply P6.
     + assert (Ew : ws = insert_writes b) by congruence.
-      assert (Er : r = RSucc) by congruence. assert (Ee : ex = false) by congruence. clear E. subst ws r ex.
-      split; [|split].
+      assert (Er : r = RSucc) by congruence. assert (Ee : ex = false) by congruence.
+      assert (Ev : vf' = vf1) by congruence. clear E0. subst ws r ex vf'.
+      split; [|split; [|split]]; auto.
       * exists (b :: top :: t). split; auto. split; auto. cbn [qhd]. split; intros; lia.
-      * reflexivity.
       * intro k. destruct (ins_crash _ _ _ Hc Ht R k) as [Q|Q]; eauto.
         exists (b :: top :: t). split; auto. now left.
   - destruct (N.ltb_spec (qn b) (qn top)) as [Hlt|Hge].
-    { inversion E; subst. apply add_stay; auto. discriminate.
-      intros top' t' E1 E2 _. inversion E1; subst. congruence. }
+    { inversion E0; subst. apply add_stay; auto. discriminate.
+      intros top' t' E1 E2 _ _. inversion E1; subst. congruence. }
     destruct (N.ltb_spec (qn top) (qn b)) as [Hgt|Heq].
     { apply Reorg; auto. }
-    rewrite (r_height _ _ R) in E.
+    rewrite (r_height _ _ R) in E0.
     destruct (findT (height anc + 1) (top :: t)) as [x|].
-    2:{ inversion E; subst. apply add_stay; auto. discriminate.
-        intros top' t' E1 E2 _. inversion E1; subst. congruence. }
+    2:{ inversion E0; subst. apply add_stay; auto. discriminate.
+        intros top' t' E1 E2 _ _. inversion E1; subst. congruence. }
     destruct (pv_local_greater x b).
-    { inversion E; subst. apply add_stay; auto. discriminate.
-      intros top' t' E1 E2 _. inversion E1; subst. congruence. }
+    { inversion E0; subst. apply add_stay; auto. discriminate.
+      intros top' t' E1 E2 _ _. inversion E1; subst. congruence. }
     apply Reorg; auto.
 Qed.
 
@@ -558,22 +769,26 @@ Proof.
   intros fut k b H Ub h c. unfold upd. destruct (h =? k). intro E; inversion E; now subst. apply H.
 Qed.
 
-Lemma deliver_inv : forall fuel fut s b, futs_ok fut -> U b -> Inv s ->
-  Inv (fst (fst (deliver fuel fut s b))) /\ futs_ok (snd (fst (deliver fuel fut s b))).
+(* the volatile state is sound: waiting orphans are valid blocks, cached blocks are tx-disjoint *)
+Definition vol_ok (v : vol) : Prop := futs_ok (fst v) /\ vf_ok (snd v).
+
+Lemma deliver_inv : forall fuel v s b, vol_ok v -> U b -> Inv s ->
+  Inv (fst (fst (deliver fuel v s b))) /\ vol_ok (snd (fst (deliver fuel v s b))).
 Proof.
-  intros fuel fut s b Hf Ub [l [Hc R]]. unfold deliver.
-  destruct (byHash s (pre b)). 2:{ cbn. split. now exists l. now apply upd_futs_ok. }
-  destruct (is_some (byHash s (hash b))). { cbn. split; auto. now exists l. }
-  destruct (add_writes fuel fut s b) as [[ws r] ex] eqn:E. cbn. split; auto.
-  destruct (add_ok fuel fut s l b Hf Hc R Ub _ _ _ E) as [[l' [P1 [P2 _]]] _]. now exists l'.
+  intros fuel [fut vf] s b [Hf Hv] Ub [l [Hc R]]. unfold deliver. cbn [fst snd] in *.
+  destruct (byHash s (pre b)). 2:{ cbn. split. now exists l. split; auto. now apply upd_futs_ok. }
+  destruct (is_some (byHash s (hash b))). { cbn. split. now exists l. split; auto. }
+  destruct (add_writes fuel fut vf s b) as [[[ws r] ex] vf'] eqn:E0. cbn.
+  destruct (add_ok fuel fut vf s l b Hf Hv Hc R Ub _ _ _ _ E0) as [[l' [P1 [P2 _]]] [_ [_ P7]]].
+  split. now exists l'. split; auto.
 Qed.
 
-Lemma run_inv : forall hist fuel fut s, Forall U hist -> futs_ok fut -> Inv s ->
-  Inv (fst (run fuel fut s hist)).
+Lemma run_inv : forall hist fuel v s, Forall U hist -> vol_ok v -> Inv s ->
+  Inv (fst (run fuel v s hist)).
 Proof.
-  induction hist as [|b r IH]; intros fuel fut s HU Hf HI; cbn. exact HI.
-  inversion HU; subst. pose proof (deliver_inv fuel fut s b Hf H1 HI) as [D1 D2].
-  destruct (deliver fuel fut s b) as [[s' fut'] res]. cbn in *. now apply IH.
+  induction hist as [|b r IH]; intros fuel v s HU Hf HI; cbn. exact HI.
+  inversion HU; subst. pose proof (deliver_inv fuel v s b Hf H1 HI) as [D1 D2].
+  destruct (deliver fuel v s b) as [[s' v'] res]. cbn in *. now apply IH.
 Qed.
 
 Lemma inv_observables : forall s, Inv s ->
@@ -581,10 +796,11 @@ Lemma inv_observables : forall s, Inv s ->
     (forall x, In x l -> byHash s (hash x) = Some x /\ byHeight s (height x) = Some x) /\
     (forall h x, byHash s h = Some x -> In x l /\ hash x = h) /\
     (forall n x, byHeight s n = Some x -> In x l /\ height x = n /\ height x <= height hd) /\
-    amark s = None /\ rmark s = None /\ head_openable s = true.
+    amark s = None /\ rmark s = None /\ head_openable s = true /\
+    (forall t, exec s t = true <-> exists x, In x l /\ In t (txs x)).
 Proof.
   intros s [l [Hc R]]. destruct l as [|hd t]; [contradiction|]. exists (hd :: t), hd.
-  split; auto. split. now rewrite (r_cur _ _ R). split; auto. split; [|split; [|split; [|split; [|split]]]].
+  split; auto. split. now rewrite (r_cur _ _ R). split; auto. split; [|split; [|split; [|split; [|split; [|split]]]]].
   - intros x Hx. rewrite (r_hash _ _ R), (r_height _ _ R). split.
     + destruct (findH (hash x) (hd :: t)) as [y|] eqn:E.
       * apply findH_some in E. destruct E as [Hy He]. f_equal. apply U_inj; auto; eapply chain_ok_U; eauto.
@@ -603,6 +819,17 @@ Proof.
   - exact (r_amark _ _ R).
   - exact (r_rmark _ _ R).
   - unfold head_openable. rewrite (r_cur _ _ R). cbn. apply (r_roots _ _ R). now left.
+  - intro t0. rewrite (r_exec _ _ R). unfold E. rewrite existsb_exists. split.
+    + intros [x [Hi Hm]]. exists x. split; auto. now apply tmem_in.
+    + intros [x [Hi Hm]]. exists x. split; auto. now apply tmem_in.
+Qed.
+
+(* no transaction is carried twice by the chain *)
+Lemma chain_tx_once : forall l, chain_ok l -> forall f x a t, l = f ++ x :: a -> In t (txs x) -> E a t = false.
+Proof.
+  intros l Hc f x a t0 -> Hi.
+  assert (Hx : chain_ok (x :: a)) by (eapply chain_ok_suffix; eauto; [discriminate|now exists f]).
+  destruct a as [|p a']. reflexivity. destruct Hx as [_ [_ [Hd _]]]. apply Hd. now apply tmem_in.
 Qed.
 
 (* ---------- crash safety, top level ---------- *)
@@ -625,12 +852,12 @@ Proof.
   - right. apply faults_recover; auto. now apply chain_ok_tail in Hc.
 Qed.
 
-Lemma add_crash_safe : forall fuel fut s b, futs_ok fut -> U b -> Inv s -> forall k js,
-  Inv (recover (faults js (crash k (fst (fst (add_writes fuel fut s b))) s))).
+Lemma add_crash_safe : forall fuel fut vf s b, futs_ok fut -> vf_ok vf -> U b -> Inv s -> forall k js,
+  Inv (recover (faults js (crash k (fst (fst (fst (add_writes fuel fut vf s b)))) s))).
 Proof.
-  intros fuel fut s b Hf Ub [l [Hc R]] k js.
-  destruct (add_writes fuel fut s b) as [[ws r] ex] eqn:E. cbn [fst].
-  destruct (add_ok fuel fut s l b Hf Hc R Ub _ _ _ E) as [_ [_ P]].
+  intros fuel fut vf s b Hf Hv Ub [l [Hc R]] k js.
+  destruct (add_writes fuel fut vf s b) as [[[ws r] ex] vf'] eqn:E0. cbn [fst].
+  destruct (add_ok fuel fut vf s l b Hf Hv Hc R Ub _ _ _ _ E0) as [_ [_ [P _]]].
   destruct (P k) as [l'' [Q1 Q2]]. exists l''. split; auto. now apply faults_recover.
 Qed.
 
@@ -644,62 +871,85 @@ Inductive move (l : list block) (b : block) : list block -> result -> Prop :=
     (qhd l < qn b \/ (qhd l = qn b /\ exists x, findT (height anc + 1) l = Some x /\ pvh_lt x b)) ->
     move l b (b :: anc :: rest) RSucc.
 
-Lemma add_extend : forall f fut s top t b, rep s (top :: t) -> pre b = hash top ->
-  findH (hash b) (top :: t) = None -> fut (hash b) = None ->
-  add_writes (S f) fut s b = (insert_writes b, RSucc, false).
+Lemma verify_disj : forall vf s l b anc rest, vf_ok vf -> rep s l -> U b -> U anc ->
+  suffix (anc :: rest) l -> chain_ok (anc :: rest) -> pre b = hash anc ->
+  negb (vf (hash b)) && existsb (exec s) (txs b) = false ->
+  disj b (anc :: rest) /\ vf_ok (upd vf (hash b) true).
 Proof.
-  intros f fut s top t b R Hp Hf Hfu. cbn [add_writes]. rewrite (r_cur _ _ R). cbn [hd_error].
+  intros vf s l b anc rest Hvf R Ub Uanc Hs1 Hc1 Hha Ever.
+  destruct (vf (hash b)) eqn:Ehit.
+  - split. apply (Hvf b anc rest); auto. now apply vf_ok_upd_hit.
+  - cbn in Ever. assert (D0 : disj b l) by (eapply exec_disj; eauto).
+    assert (D1 : disj b (anc :: rest)) by (eapply disj_suffix; eauto).
+    split; auto. apply vf_ok_upd; auto. intros a' rest' Hc' Hp'.
+    assert (a' = anc).
+    { apply U_inj; auto. eapply chain_ok_U; eauto. now left. congruence. }
+    subst a'. rewrite (chain_uniq _ _ _ Hc' Hc1). exact D1.
+Qed.
+
+Lemma add_extend : forall f fut vf s top t b, rep s (top :: t) -> pre b = hash top ->
+  findH (hash b) (top :: t) = None -> fut (hash b) = None -> disj b (top :: t) ->
+  add_writes (S f) fut vf s b = (insert_writes b, RSucc, false, upd vf (hash b) true).
+Proof.
+  intros f fut vf s top t b R Hp Hf Hfu Hd. cbn [add_writes]. rewrite (r_cur _ _ R). cbn [hd_error].
   rewrite !(r_hash _ _ R), Hf.
   assert (Hne : hash b <> hash top).
   { intro e. rewrite findH_cons, e, N.eqb_refl in Hf. discriminate. }
   destruct (N.eqb_spec (hash b) (hash top)); [contradiction|]. cbn [orb is_some].
-  rewrite Hp, findH_cons, !N.eqb_refl, Hfu. reflexivity.
+  rewrite Hp, findH_cons, !N.eqb_refl, (disj_exec _ _ _ R Hd), andb_false_r, Hfu. reflexivity.
 Qed.
 
-Lemma add_move : forall f fut s l b, chain_ok l -> rep s l -> U b -> fut (hash b) = None ->
-  forall ws r ex, add_writes (S (S f)) fut s b = (ws, r, ex) ->
+Lemma add_move : forall f fut vf s l b, chain_ok l -> rep s l -> U b -> vf_ok vf -> fut (hash b) = None ->
+  forall ws r ex vf', add_writes (S (S f)) fut vf s b = (ws, r, ex, vf') ->
   ex = false /\ exists l', chain_ok l' /\ rep (apply ws s) l' /\ move l b l' r /\
   forall k js, exists l'', chain_ok l'' /\ rep (recover (faults js (crash k ws s))) l'' /\
      (l'' = l' \/ (suffix l'' l /\ (r = RSucc -> findH (pre b) l'' <> None))).
 Proof.
-  intros f fut s l b Hc R Ub Hfu ws r ex E.
-  assert (Stay : forall r0, r0 <> RSucc -> ([] : list write, r0, false) = (ws, r, ex) ->
+  intros f fut vf s l b Hc R Ub Hvf Hfu ws r ex vf' E0.
+  assert (Stay : forall r0 vf0, r0 <> RSucc -> ([] : list write, r0, false, vf0) = (ws, r, ex, vf') ->
     ex = false /\ exists l', chain_ok l' /\ rep (apply ws s) l' /\ move l b l' r /\
     forall k js, exists l'', chain_ok l'' /\ rep (recover (faults js (crash k ws s))) l'' /\
      (l'' = l' \/ (suffix l'' l /\ (r = RSucc -> findH (pre b) l'' <> None)))).
-  { intros r0 Hr E0. inversion E0; subst. split; auto. exists l. split; auto. split; auto.
+  { intros r0 vf0 Hr E1. inversion E1; subst. split; auto. exists l. split; auto. split; auto.
     split. now constructor. intros k js. exists l. rewrite firstn_nil_crash. split; auto. split; auto.
     apply faults_recover; auto. now left. }
-  remember (S f) as f1. cbn [add_writes] in E. rewrite (r_cur _ _ R) in E.
-  destruct l as [|top t]; [contradiction|]. cbn [hd_error] in E.
-  rewrite !(r_hash _ _ R) in E.
+  remember (S f) as f1. cbn [add_writes] in E0. rewrite (r_cur _ _ R) in E0.
+  destruct l as [|top t]; [contradiction|]. cbn [hd_error] in E0.
+  rewrite !(r_hash _ _ R) in E0.
   destruct ((hash b =? hash top) || is_some (findH (hash b) (top :: t))) eqn:Eex.
   { eapply Stay; eauto. discriminate. }
   apply orb_false_elim in Eex. destruct Eex as [Ene Efr]. apply is_some_false in Efr. apply N.eqb_neq in Ene.
   destruct (findH (pre b) (top :: t)) as [anc|] eqn:Eanc.
-  2:{ eapply Stay; eauto. discriminate. }
+  2:{ eapply Stay; eauto. destruct (_ && _); discriminate. }
   pose proof Eanc as Eanc0. apply findH_some in Eanc. destruct Eanc as [Hia Hha].
   assert (Utop : U top) by (eapply chain_ok_U; eauto; now left).
+  destruct (negb (vf (hash b)) && existsb (exec s) (txs b)) eqn:Ever.
+  { eapply Stay; eauto. discriminate. }
+  destruct (drop_above_at _ _ Hc Hia) as [rest Hd].
+  assert (Hs1 : suffix (anc :: rest) (top :: t)) by (rewrite <- Hd; apply drop_above_suffix).
+  assert (Hc1 : chain_ok (anc :: rest)) by (eapply chain_ok_suffix; eauto; discriminate).
+  assert (Uanc : U anc) by (apply (chain_ok_U _ _ Hc Hia)).
+  destruct (verify_disj vf s _ b anc rest Hvf R Ub Uanc Hs1 Hc1 (eq_sym Hha) Ever) as [Dj Hvf1].
+  clear Ever. remember (upd vf (hash b) true) as vf1.
   assert (Reorg : (qn top < qn b \/ (qn top = qn b /\ exists x, findT (height anc + 1) (top :: t) = Some x /\ pvh_lt x b)) ->
-    pre b <> hash top -> forall ws r ex,
+    pre b <> hash top -> forall ws r ex vf',
     (let ws1 := rfca (N.to_nat (height top - height anc)) s (height anc) (height top) in
-     let '(ws2, r2, ex2) := add_writes f1 fut (apply ws1 s) b in (ws1 ++ ws2, r2, ex2)) = (ws, r, ex) ->
+     let '(ws2, r2, ex2, vf2) := add_writes f1 fut (vf_after ws1 vf1) (apply ws1 s) b in (ws1 ++ ws2, r2, ex2, vf2))
+      = (ws, r, ex, vf') ->
     ex = false /\ exists l', chain_ok l' /\ rep (apply ws s) l' /\ move (top :: t) b l' r /\
     forall k js, exists l'', chain_ok l'' /\ rep (recover (faults js (crash k ws s))) l'' /\
      (l'' = l' \/ (suffix l'' (top :: t) /\ (r = RSucc -> findH (pre b) l'' <> None)))).
-  { intros Hw Hnp ws0 r0 ex0 E0. cbn zeta in E0.
+  { intros Hw Hnp ws0 r0 ex0 vf0 E1. cbn zeta in E1.
     assert (Hb : forall y, In y (top :: t) -> height y <= height top).
     { intros y [<-|Hy]. lia. pose proof (chain_ok_lt _ _ _ Hc Hy). lia. }
     destruct (rfca_ok (N.to_nat (height top - height anc)) s (top :: t) (height anc) (height top) Hc R
                 (ex_intro _ anc (conj Hia eq_refl)) Hb (le_n _)) as [R1 C1].
-    destruct (drop_above_at _ _ Hc Hia) as [rest Hd]. rewrite Hd in R1, C1.
+    rewrite Hd in R1, C1.
     set (ws1 := rfca (N.to_nat (height top - height anc)) s (height anc) (height top)) in *.
-    assert (Hs1 : suffix (anc :: rest) (top :: t)) by (rewrite <- Hd; apply drop_above_suffix).
-    assert (Hc1 : chain_ok (anc :: rest)) by (eapply chain_ok_suffix; eauto; discriminate).
     assert (Hfr1 : findH (hash b) (anc :: rest) = None) by (eapply findH_suffix_none; eauto).
-    subst f1. rewrite (add_extend f fut _ anc rest b R1 (eq_sym Hha) Hfr1 Hfu) in E0.
+    subst f1. rewrite (add_extend f fut _ _ anc rest b R1 (eq_sym Hha) Hfr1 Hfu Dj) in E1.
     assert (Ew : ws0 = ws1 ++ insert_writes b) by congruence.
-    assert (Er : r0 = RSucc) by congruence. assert (Ee : ex0 = false) by congruence. clear E0. subst ws0 r0 ex0.
+    assert (Er : r0 = RSucc) by congruence. assert (Ee : ex0 = false) by congruence. clear E1. subst ws0 r0 ex0.
     assert (Ht1 : top_ok (anc :: rest) b) by (constructor; auto; now exists anc, rest).
     destruct (top_facts _ b Hc1 Ht1) as [p' [t' [E' [_ [_ [_ [_ [_ [Hc' _]]]]]]]]].
     split; auto. exists (b :: anc :: rest). split; auto. split.
@@ -718,10 +968,13 @@ Proof.
       + exists (b :: anc :: rest). split; auto. split; auto. apply faults_recover; auto. now left. }
   destruct (N.eqb_spec (pre b) (hash top)) as [Hpt|Hpt].
   - subst f1. clear Reorg Stay.
+    assert (anc = top).
+    { rewrite Hpt, findH_cons, N.eqb_refl in Eanc0. congruence. }
+    subst anc. cbn [drop_above] in Hd. rewrite N.ltb_irrefl in Hd. inversion Hd; subst rest.
     assert (Ht : top_ok (top :: t) b) by (constructor; auto; now exists top, t).
     destruct (top_facts _ b Hc Ht) as [p' [t' [E' [_ [_ [_ [_ [_ [Hc' _]]]]]]]]].
-    rewrite Hfu in E. assert (Ew : ws = insert_writes b) by congruence.
-    assert (Er : r = RSucc) by congruence. assert (Ee : ex = false) by congruence. clear E. subst ws r ex.
+    rewrite Hfu in E0. assert (Ew : ws = insert_writes b) by congruence.
+    assert (Er : r = RSucc) by congruence. assert (Ee : ex = false) by congruence. clear E0. subst ws r ex.
     split; auto. exists (b :: top :: t). split; auto. split. now apply rep_insert.
     split. { apply (MExtend _ _ top t); auto. apply (U_child top b); auto. }
     intros k js. destruct (insert_crash_safe _ _ _ Hc Ht R k js) as [Q|Q].
@@ -731,13 +984,13 @@ Proof.
   - destruct (N.ltb_spec (qn b) (qn top)) as [Hlt|Hge].
     { eapply Stay; eauto. discriminate. }
     destruct (N.ltb_spec (qn top) (qn b)) as [Hgt|Heq].
-    { apply Reorg; auto. }
-    rewrite (r_height _ _ R) in E.
+    { eapply Reorg; eauto. }
+    rewrite (r_height _ _ R) in E0.
     destruct (findT (height anc + 1) (top :: t)) as [x|] eqn:Ex.
     2:{ eapply Stay; eauto. discriminate. }
     destruct (pv_local_greater x b) eqn:Epv.
     { eapply Stay; eauto. discriminate. }
-    apply Reorg; auto. right. split. lia. exists x. split; auto.
+    eapply Reorg; eauto. right. split. lia. exists x. split; auto.
     unfold pv_local_greater in Epv. apply orb_false_elim in Epv. destruct Epv as [E1 E2].
     apply N.ltb_ge in E1. unfold pvh_lt.
     destruct (N.eq_dec (pv x) (pv b)) as [e|ne]; [|left; lia].
@@ -747,12 +1000,12 @@ Proof.
 Qed.
 
 (* ---------- cumulative QN of the head never decreases (any futures, any recursion) ---------- *)
-Lemma add_qn_mono : forall fuel fut s b, futs_ok fut -> U b -> Inv s ->
-  forall ws r ex, add_writes fuel fut s b = (ws, r, ex) -> ex = false ->
+Lemma add_qn_mono : forall fuel fut vf s b, futs_ok fut -> vf_ok vf -> U b -> Inv s ->
+  forall ws r ex vf', add_writes fuel fut vf s b = (ws, r, ex, vf') -> ex = false ->
   forall hd hd', cur s = Some hd -> cur (apply ws s) = Some hd' -> qn hd <= qn hd'.
 Proof.
-  intros fuel fut s b Hf Ub [l [Hc R]] ws r ex E He hd hd' H1 H2.
-  destruct (add_ok fuel fut s l b Hf Hc R Ub _ _ _ E) as [[l' [P1 [P2 [P3 _]]]] _].
+  intros fuel fut vf s b Hf Hv Ub [l [Hc R]] ws r ex vf' E0 He hd hd' H1 H2.
+  destruct (add_ok fuel fut vf s l b Hf Hv Hc R Ub _ _ _ _ E0) as [[l' [P1 [P2 [P3 _]]]] _].
   specialize (P3 He). rewrite (r_cur _ _ R) in H1. rewrite (r_cur _ _ P2) in H2.
   destruct l as [|x l0]; [discriminate|]. destruct l' as [|x' l0']; [discriminate|].
   cbn in H1, H2. inversion H1; inversion H2; subst. exact P3.
